@@ -651,6 +651,11 @@ def handleSpec (name : String) (ins ans : List String) : String :=
       match arg.toNat?, parseSigEvs ans with
       | some rate, some evs => optVerdict (Spec.oracleSigC04 rate evs)
       | _, _ => "FAIL unparsable"
+    | "nosom" =>
+      match parseSigEvs ans with
+      | some evs => verdict (!evs.any (fun e => match e with | .msg _ (.som ..) => true | _ => false))
+          "a StartOfMessage was reported for audio that carries no header in two bursts"
+      | none => "FAIL unparsable"
     | "c13life" =>
       match parseSigEvs ans with
       | some evs => optVerdict (Spec.oracleLifecycle evs)
